@@ -76,6 +76,8 @@ DEFAULT_INDENT = "    "
 # Bracket-like openers (Python + xonsh subprocess).
 _OPENERS = frozenset(("(", "[", "{", "$(", "$[", "${", "!(", "![", "@(", "@!(", "@$("))
 _CLOSERS = frozenset((")", "]", "}"))
+# Openers whose content is a subprocess command line, not Python.
+_SUBPROC_OPENERS = frozenset(("$(", "$[", "!(", "![", "@$("))
 
 # Operators that always take a space on each side in Python mode.
 _ALWAYS_SPACED = frozenset(
@@ -592,6 +594,17 @@ class _Formatter:
             return ""
         if cs in _CLOSERS:
             return ""
+
+        # Directly inside a subprocess bracket (``$(…)``, ``!(…)``, ``$[…]``,
+        # ``![…]``, ``@$(…)``) white space separates arguments, exactly as in
+        # a subprocess statement: the Python punctuation rules below must
+        # not apply (``$(echo a,b x:y)``). Glued tokens stay glued, separated
+        # ones stay separated. Nested Python brackets (``@(…)``) have their
+        # own opener on top of the stack and keep the Python rules.
+        if self._brackets and self._brackets[-1] in _SUBPROC_OPENERS:
+            if prev.end[0] != cur.start[0]:
+                return " "
+            return " " if cur.start[1] > prev.end[1] else ""
 
         # Comma / semicolon: never a space before, exactly one after.
         if cs == "," or cs == ";":
